@@ -319,7 +319,15 @@ pub fn gen_case(rng: &mut Rng) -> Case17 {
             let mut raw = if le { b"\xff\xfe".to_vec() } else { b"\xfe\xff".to_vec() };
             raw.extend(encode_utf16(rng, &t, le, malformed));
             let label = rng.pick(&[Enc::Latin1, Enc::ShiftJis, Enc::Utf8, Enc::Utf16Be, Enc::Utf16Le]);
-            (raw, Some(label), true)
+            if rng.chance(1, 3) {
+                // a UTF-8 mark against a label that says otherwise
+                let mut raw = b"\xef\xbb\xbf".to_vec();
+                raw.extend_from_slice(t.as_bytes());
+                let label = rng.pick(&[Enc::Latin1, Enc::ShiftJis, Enc::Utf16Be, Enc::Utf16Le]);
+                (raw, Some(label), true)
+            } else {
+                (raw, Some(label), true)
+            }
         }
         8 => {
             // sniffing disabled (--encoding none): raw bytes, BOM included
@@ -397,6 +405,7 @@ pub fn check_case(case: &Case17, legs: &[Leg], rep: &mut Report) {
         (_, false, _) => "encoding_none",
         (None, true, _) => "bom_sniffed",
         (Some(_), true, Some(b)) if b == b"\xff\xfe" || b == b"\xfe\xff" => "bom_overrides_label",
+        (Some(l), true, Some(b)) if b == b"\xef\xbb" && l != Enc::Utf8 => "utf8_bom_overrides_label",
         (Some(l), true, _) => match l {
             Enc::Utf16Le | Enc::Utf16Be => "label_utf16",
             Enc::Utf8 => "label_utf8",
@@ -450,8 +459,61 @@ pub fn check_case(case: &Case17, legs: &[Leg], rep: &mut Report) {
             }
         }
         if got != ref_log
+            && case.sniff
+            && case.raw.starts_with(b"\xef\xbb\xbf")
+            && matches!(case.label, Some(l) if l != Enc::Utf8)
+        {
+            // Known finding (encoding_rs_io): a UTF-8 mark is removed but
+            // does not override the explicit label: the rest of the input is
+            // still decoded with the label's decoder.
+            let alt_text = reference_transcode(&case.raw[3..], case.label, false);
+            let alt = run_leg(&matcher, &ref_cfg, &Leg::Slice, &alt_text, None);
+            let alt_log = flatten(&alt.log, case.cfg.term);
+            // (the label's decoding may itself end in a malformed tail, whose
+            // replacement character is lost: the other encoding_rs_io finding)
+            let lost_tail = |text: &[u8]| -> bool {
+                // results equal those of the text with its final U+FFFD
+                // removed or cut short
+                text.ends_with("\u{FFFD}".as_bytes())
+                    && (1..=3).any(|k| {
+                        let o = run_leg(&matcher, &ref_cfg, &Leg::Slice, &text[..text.len() - k], None);
+                        o.result.is_ok() && flatten(&o.log, case.cfg.term) == got
+                    })
+            };
+            if alt.result.is_ok()
+                && (alt_log == got
+                    || (alt_text.ends_with("\u{FFFD}".as_bytes())
+                        && truncated_trailing_replacement(&alt_log, &got))
+                    || lost_tail(&alt_text))
+            {
+                rep.violation(
+                    "C17:utf8-mark-removed-but-explicit-label-still-decodes",
+                    format!(
+                        "{}: input starts with EF BB BF, label {:?}: results are those of the label's decoding of the rest, not of the UTF-8 text",
+                        kind,
+                        case.label.map(|l| l.label())
+                    ),
+                    || json!({"case": case.to_json(), "leg": leg.to_json()}),
+                );
+                continue;
+            }
+        }
+        if got != ref_log
             && transcoded.ends_with("\u{FFFD}".as_bytes())
-            && truncated_trailing_replacement(&ref_log, &got)
+            && (truncated_trailing_replacement(&ref_log, &got)
+                || (1..=3).any(|k| {
+                    // the results are those of the transcoding with its final
+                    // U+FFFD removed (k = 3) or cut short (matters when the
+                    // pattern can match U+FFFD itself)
+                    let o = run_leg(
+                        &matcher,
+                        &ref_cfg,
+                        &Leg::Slice,
+                        &transcoded[..transcoded.len() - k],
+                        None,
+                    );
+                    o.result.is_ok() && flatten(&o.log, case.cfg.term) == got
+                }))
         {
             // Known finding (encoding_rs_io): the replacement character that
             // stands for a malformed tail of the input is lost (legacy
